@@ -113,7 +113,7 @@ Prods(nt) ==
     [] nt = "<Expr>" -> { <<"<Atom>">>, <<"<Atom>", "|", "<Chain>">> } \cup { <<"<Expr>", " ", op, " ", "<Expr>">> : op \in Ops }
                         \cup { <<"(", "<Expr>", ")">>, <<"not ", "<Expr>">>, <<"-", "<Expr>">>, <<"<Atom>", "[", "<Expr>", "]">>,
                                <<"<Atom>", "(", "<Args>", ")">>, <<"[", "<Args>", "]">> }
-    [] nt = "<Atom>" -> { <<n>> : n \in CtxNames \cup Ints \cup Strs \cup {"true", "false", "nope", "1.5", "forloop", "block"} }
+    [] nt = "<Atom>" -> { <<n>> : n \in CtxNames \cup Ints \cup Strs \cup {"true", "false", "nope", "1.5", "0.5", "0.25", "forloop", "block"} }
                         \cup { <<n, ".", m>> : n \in CtxNames, m \in {"F", "h", "k", "0", "9", "M0", "M1", "nope", "Counter", "Super", "1", "2"} }
     [] nt = "<Chain>" -> { <<f>> : f \in RegFilters } \cup { <<f, ":", "<Arg>">> : f \in RegFilters } \cup { <<f, "|", "<Chain>">> : f \in RegFilters }
     [] nt = "<Arg>" -> { <<a>> : a \in Ints \cup Strs \cup CtxNames \cup {"-1", "99999", "nope"} }
